@@ -49,10 +49,10 @@ func selectorLabel(sel cue.Selector) string {
 	case cue.DefinitionLabel:
 		return sel.String()[1:]
 	}
-	// We shouldn't get anything other than non-hidden
-	// fields and definitions because we've not asked the
-	// Fields iterator for those or created them explicitly.
-	panic(fmt.Sprintf("unreachable %v", sel.Type()))
+	// Fields iterators only hand out non-hidden fields and definitions, but
+	// the path of a reference can also go through a list element or a hidden
+	// field: fall back on the selector's own representation.
+	return sel.String()
 }
 
 // from https://github.com/cue-lang/cue/blob/99e8578ac45e5e7e6ebf25794303bc916744c0d3/encoding/openapi/build.go#L490
